@@ -157,11 +157,14 @@ def main(root, repo_src, plan_path):
             rec["res"], rec["exc"] = "exception", type(ex).__name__ + ": " + str(ex)[:120]
         return rec
 
+    hangs = [0]
+
     async def run_all():
         for call in plan["calls"]:
             try:
-                r = await asyncio.wait_for(one(call), 90)
+                r = await asyncio.wait_for(one(call), 60 if hangs[0] == 0 else 15)      # (a loaded machine gets a full minute once)
             except asyncio.TimeoutError:
+                hangs[0] += 1
                 r = {"route": call["method"], "ran": [], "seen_reqs": [], "sent_resps": [], "meta": "", "deadline": -1, "hit": [], "res": "hang",
                      "status": "", "got": [], "sent": [], "exc": ""}
             except Exception as ex:
